@@ -23,7 +23,7 @@ from puresnmp.adt import (
 )
 from puresnmp.credentials import V3, Credentials
 from puresnmp.exc import SnmpError
-from puresnmp.pdu import GetRequest, PDUContent
+from puresnmp.pdu import GetRequest, PDUContent, Report
 from puresnmp.plugins.security import SecurityModel
 from puresnmp.transport import MESSAGE_MAX_SIZE
 from puresnmp.util import get_request_id, localise_key, validate_response_id
@@ -475,6 +475,7 @@ class UserSecurityModel(
         verify_authentication(message, credentials, security_params)
         message = decrypt_message(message, credentials)
         validate_usm_message(message)
+        validate_security_level(message, credentials)
         return message
 
     async def send_discovery_message(
@@ -586,6 +587,39 @@ def validate_usm_message(message: PlainMessage) -> None:
         if varbind.oid in errors:
             msg = errors[varbind.oid]
             raise SnmpError(f"Error response from remote device: {msg}")
+    if isinstance(message.scoped_pdu.data, Report):
+        # Reports are the only messages which may legitimately arrive with a
+        # lower security level than the request. They never carry a result.
+        raise SnmpError(
+            "Error response from remote device: "
+            f"Unexpected report {pdu.varbinds!r}"
+        )
+
+
+def validate_security_level(message: PlainMessage, credentials: V3) -> None:
+    """
+    Ensure that a message was secured with the security-level of the
+    credentials (see :rfc:`3412#section-7.2` step 10).
+
+    Without this check, anybody could clear the "auth" flag of a message and
+    thereby skip the verification of the digest.
+
+    :raises AuthenticationError: If the message is not authenticated but the
+        credentials contain an authentication key
+    :raises UnsupportedSecurityLevel: If the message is not encrypted but the
+        credentials contain an encryption key
+    """
+    flags = message.header.flags
+    if credentials.auth is not None and not flags.auth:
+        raise AuthenticationError(
+            "Incoming message is not authenticated, but the credentials "
+            "require authentication!"
+        )
+    if credentials.priv is not None and not flags.priv:
+        raise UnsupportedSecurityLevel(
+            "Incoming message is not encrypted, but the credentials "
+            "require encryption!"
+        )
 
 
 def create() -> UserSecurityModel:
